@@ -20,7 +20,7 @@ def renderOp (j : Json) : Except String Json := do
   let o ← optsOf (← j.getObjVal? "opts")
   let d ← Driver.Ast.docOf (← j.getObjVal? "doc")
   if supported o d then
-    pure (Json.mkObj [("out", Driver.str (render o d))])
+    pure (Json.mkObj [("out", Driver.str (renderFlavored o d))])
   else
     pure (Json.mkObj [("raises", Json.bool true)])
 
